@@ -33,7 +33,8 @@ ASSUMPTIONS = ['"grow by exactly factor per step" is checked with a relative tol
                'jitter bounds are evaluated in exact rational arithmetic with a 1e-12 relative allowance']
 
 SELFTEST_MUTANT = 'jitter-sign-flipped'
-REQUIRED_PROBES = ['extreme_draw_consumed', 'start_zero_stop_below_one', 'stop_within_ulps_of_exact_power']
+REQUIRED_PROBES = ['extreme_draw_consumed', 'start_zero_stop_below_one', 'stop_within_ulps_of_exact_power',
+                   'threads_preempted_inside_backoff_iter', 'prior_call_with_another_count']
 it = None
 
 
